@@ -1,3 +1,23 @@
-(* C11 - placeholder (DESIGN.md 7 C11). *)
-From DL Require Import Base Context.
-Example C11_placeholder : True. Proof. exact I. Qed.
+(* C11 - tuple hints are checked element by element in the shared context.
+   A tuple[...] hint flattens into one annotation per element and marks the value as a tuple (for every length,
+   one included).  DLTypeContext.add pairs annotations and values position by position (zip strict: different
+   lengths are an error, never a silent truncation); positions without annotation are skipped but counted;
+   element i is named `name` for i = 0 and `name[i]` otherwise; all elements join the one queue of the context,
+   so bindings are shared with every other tensor (C01 / C02 speak about that queue). *)
+From DL Require Import Base Lexer Parser Eval Shape Dtypes Check Context Hints Call Structural.
+
+Theorem C11_tuple_marks_value_as_tuple : forall hs r, from_hint (HTuple hs) false = Ok r -> fst r = true.
+Proof. exact tuple_hint_flattens. Qed.
+Theorem C11_one_element_tuple : forall b a, from_hint (HTuple [HAnn BSupported a]) b = Ok (true, [Some (set_opt a false)]).
+Proof. reflexivity. Qed.
+Theorem C11_elementwise : forall name anns idx vals q q', add_loop name idx anns vals q = DOk q' ->
+  q' = q ++ expected_queue name idx anns vals /\ length anns = length vals.
+Proof. exact add_loop_queue. Qed.
+Theorem C11_plain_positions_ignored : forall name idx anns v vals q,
+  add_loop name idx (None :: anns) (v :: vals) q = add_loop name (S idx) anns vals q.
+Proof. exact add_plain_position. Qed.
+Theorem C11_element_names : forall i n x a,
+  tensor_arg_name {| c_idx := i; c_name := n; c_tensor := x; c_annot := a |} = if 0 <? i then indexed_name n i else n.
+Proof. reflexivity. Qed.
+Example third_element_is_named_x2 : indexed_name "x" 2 = "x[2]". Proof. reflexivity. Qed.
+Redirect "C11.assumptions.1" Print Assumptions C11_elementwise.
